@@ -53,7 +53,7 @@ def adapt_with_vmap(op, signature=None):
     op = adapter.decomposednamedtensor_from_vmap.op(op, vmap, expected_type=jax.numpy.ndarray)
     op = adapter.namedtensor_from_decomposednamedtensor.op(op, classical)
     op = adapter.namedtensor_calltensorfactory.op(op, expected_type=jax.numpy.ndarray)
-    op = adapter.einx_from_namedtensor.op(op, iskwarg=iskwarg, el_op=signature, implicit_output="bijective")
+    op = adapter.einx_from_namedtensor.op(op, iskwarg=iskwarg, el_op=signature, implicit_output="bijective", cse_in_brackets=False)
 
     return api(op, backend=types.SimpleNamespace(**_get_backend_kwargs()))
 
